@@ -4,6 +4,9 @@ from harness import nsrun as N
 from vlib import fakes as F
 from vlib import ns
 
+# private-attribute groups (vlib/layout.py) the obligations of this module depend on
+LAYOUT = ['manager', 'coord', 'task', 'bex', 'tasksem', 'sws']
+
 EXPLANATION = (
     'C10: (1) wiring - with the six limits as UNBOUNDED symbolic integers a recording executor_cls observes what the '
     'real TransferManager constructor hands to each stage; (2) permit discipline - the real BoundedExecutor.submit '
